@@ -57,6 +57,12 @@ check("C07", "exploration",
   "Small value alphabets; the values probed are those read back from each row group (C01 ties them to what was written); encryption of filters is C18's.",
   "DESIGN.md §2 C07")
 
+check("C09", "exploration",
+  "bounded exhaustive enumeration of k sorted inputs (per-key counts), sort spec, input kind, consumption path and read batch size on the real merge; oracle = sortedness under an independent comparator, multiset equality through unique (input, seq) payloads, per-input order, one row per key with duplicate dropping",
+  "k in 0..3 (4 thorough) inputs described by per-key counts over {0,1,2} (all overlap patterns arise from the product: empty, disjoint, touching, nested, identical), plus scenarios where one key of one input is a long run around the merge's 24/48/192-row buffers and the 1024-row refinement threshold; 8 sort specs (asc/desc, second column, nullable key nulls first/last), 4 input kinds (sorted buffer, single-page file, small-page file with page index, first of several row groups), 5 paths (Rows, Rows+dedupe, WriteRowGroup, WriteRowGroup+dedupe, MergeRowReaders over readers returning 1-2 rows per call and EOF with or after the last rows) and several batch sizes.",
+  "Small key alphabet (3 values + null) and k<=4; cross-input tie order is not constrained; forward seeks on merged rows are not part of this check.",
+  "DESIGN.md §2 C09")
+
 NOT_YET = "check not built yet in this round (design in DESIGN.md §2); not claimed until its check exists"
 
 m = {
